@@ -17,8 +17,8 @@ REPO = os.environ.get("LASIM_REPO", "/repo")
 if REPO not in sys.path:
     sys.path.insert(0, REPO)
 
-EVIDENCE_DIR = os.path.join(VERIF, "evidence")
-REPLAY_DIR = os.path.join(VERIF, "replays")
+EVIDENCE_DIR = os.environ.get("LASIM_EVIDENCE_DIR") or os.path.join(VERIF, "evidence")
+REPLAY_DIR = os.environ.get("LASIM_REPLAY_DIR") or os.path.join(VERIF, "replays")
 FINDINGS_FILE = os.path.join(VERIF, "known_findings.json")
 CHECK = os.path.join(VERIF, "check")
 
@@ -327,7 +327,8 @@ def shrink(prop, scenario, oracle, budget_s=60.0):
 def write_replay(prop, scenario, violation, seed, index, shrink_tests=None, original=None):
     d = os.path.join(REPLAY_DIR, prop.id)
     os.makedirs(d, exist_ok=True)
-    path = os.path.join(d, "%s-%s.json" % (seed, index))
+    slug = "".join(ch if ch.isalnum() else "_" for ch in violation["oracle"].split(".", 1)[-1])
+    path = os.path.join(d, "%s-%s-%s.json" % (seed, index, slug))
     r = run_scenario(prop, scenario)
     doc = {"format": 1, "property": prop.id, "oracle": violation["oracle"], "seed": seed, "run": index,
            "scenario": scenario,
